@@ -21,7 +21,7 @@ MODEL = "run"
 EQB = "Z.eqb"
 SHARD = 300
 RULE = ("CID in {valid, rejected, missing} x every list of 0..3 data files over {accepted, rejected by a field, rejected "
-        "by IsUnique, sharing keys with a sibling file, missing, directory} in every order (and, under a CID whose DistinctCount end check fails on zero rows, lists over {accepted, rejected by the end check, rejected by IsUnique, missing, directory}) x --until in {absent, -1, 0, "
+        "by IsUnique, sharing keys with a sibling file, missing, directory} in every order (and, under a CID whose DistinctCount end check fails on zero rows, lists over {accepted, rejected by the end check, rejected by IsUnique, missing, directory}; and under CIDs with 1 and 2 header rows with --until 0..4) x --until in {absent, -1, 0, "
         "1, 2, -2, x}; in-process main() (both tiers) and `python -m cutplace.applications` as a subprocess for a sample "
         "(thorough). The exit code is compared with the model and with the verdicts cutplace.validate gives each file "
         "on a freshly loaded CID. Non-trivial: at least two data files. Distinct = distinct case.")
@@ -35,7 +35,8 @@ SPEC = {"format": "delimited", "header": 0,
         "checks": [{"kind": "unique", "cols": [0]}]}
 # the same CID with an end check that fails on zero rows: an unreadable file must still exit 3, not 1
 SPEC_LOWER = dict(SPEC, checks=[{"kind": "unique", "cols": [0]}, {"kind": "distinct", "col": 0, "op": ">=", "n": 2}])
-SPECS = {"plain": SPEC, "lower": SPEC_LOWER}
+# the same CID with header rows: --until N counts them exactly like the API's validation limit does
+SPECS = {"plain": SPEC, "lower": SPEC_LOWER, "header1": dict(SPEC, header=1), "header2": dict(SPEC, header=2)}
 FILES = {
     "accepted": [["a", "x"], ["b", "y"]],
     "field": [["a", "x"], ["b", "zz"], ["c", "x"]],
@@ -140,6 +141,12 @@ def gen_inputs(tier, rnd):
     for files in lower_lists:
         for until in ((None, 1) if tier == "quick" else (None, 0, 1, 2)):
             yield {"cid": "valid", "files": files, "until": until, "spec": "lower"}
+    for spec_name in ("header1", "header2"):
+        for files in [list(p) for n in (1, 2) for p in itertools.product(["accepted", "field", "unique", "missing"], repeat=n)]:
+            for until in ((None, 1, 2, 3) if tier == "quick" else (None, -1, 0, 1, 2, 3, 4)):
+                if tier == "quick" and len(files) == 2 and until in (None, 3):
+                    continue
+                yield {"cid": "valid", "files": files, "until": until, "spec": spec_name}
     for cid in ("rejected", "missing"):
         for files in ([], ["accepted"], ["missing"], ["field", "accepted"]):
             for until in UNTILS:
